@@ -81,6 +81,25 @@ def run(report, p):
     r5.instance(None, None, f"{n_dates} tzinfo replacement site(s) in shipped code")
     r5.check(True, None, None, "")
 
+    # ------------------------------------------------------------------ R16.6
+    r6 = report.rule(
+        "R16.6",
+        "no memoisation on the date path: a function that formats a date (reaches isoformat / strftime / astimezone) is not wrapped in a cache decorator - naive datetimes "
+        "compare and hash equal regardless of `fold`, so the second occurrence of a repeated local hour would be served the first one's string (wrong offset)",
+        3,
+    )
+    fmt_funcs = set()
+    for fq, f in p.funcs.items():
+        if f.module.name in unshipped:
+            continue
+        if any(isinstance(n, ast.Call) and isinstance(n.func, ast.Attribute) and n.func.attr in ("isoformat", "strftime", "astimezone") for n in walk_no_nested(f.node)):
+            fmt_funcs.add(fq)
+    on_path = {fq for fq in p.funcs if p.funcs[fq].module.name not in unshipped and any(t in fmt_funcs for t in p.reachable([fq])) and (fq in fmt_funcs or p.funcs[fq].module.name.endswith("utils"))}
+    for fq in sorted(on_path):
+        f = p.funcs[fq]
+        r6.instance(f, f.node, fq)
+        r6.check(not f.memoised, f, f.node, f"{fq} formats dates and is memoised ({', '.join(f.decorators)}): two different instants with the same wall-clock fields (DST fall-back, fold=0/1) get the same cached string", construct=f"memoised date formatter {f.name}")
+
     # ------------------------------------------------------------------ R16.2
     r2 = report.rule("R16.2", "an optional numeric attribute (size) is emitted under `is not None`, never under truthiness: 0 is a legal size", 2)
     em, mdoc, cdoc, raw = documents(p)
